@@ -3,6 +3,7 @@ import Txtpp.Lemmas.CliFacts
 import Txtpp.Lemmas.CleanParse
 import Txtpp.Lemmas.ProjectFacts
 import Txtpp.Lemmas.CleanRestore
+import Txtpp.Lemmas.CleanProject
 /-!
 # Property C07 — clean removes exactly what build generated and never executes anything
 -/
@@ -137,5 +138,30 @@ theorem clean_never_reports_dependencies {W : Type} (Wd : World W) (le : List Ch
     ppPass Wd .clean le first trailing w lines true ≠ .hasDeps deps w' := by
   obtain ⟨out, w'', h⟩ := clean_pass_ok Wd le first trailing w lines
   rw [h]; simp
+
+/-- **whole project, concrete model of `Txtpp::run`**: after a clean run that ends `ok`, for every source
+the inputs resolve to - named as a file, or found by the (recursive) directory scans - neither its
+output nor any (non-`.txtpp`) target of a `temp` block of its text exists any more. (Sources reached
+only through `include`/`after` are not among them: known finding F5.) -/
+theorem clean_run_removes_outputs_and_temp_files_of_all_inputs (cfg : Cfg) (hm : cfg.mode = .clean) (fs : FS)
+    (inputs : List (List Char)) (hok : (runProject cfg fs inputs).1 = .ok) (files dirs : List Path)
+    (hres : resolveInputs cfg fs inputs = some (files, dirs)) (src : Path)
+    (hsrc : src ∈ files ++ scanAll fs cfg.recursive (fs.dirs.length + dirs.length + 2) dirs [])
+    (content : ByteArray) (hc : fs.file? src = some content) (p : Path)
+    (hp : outputPath src = some p ∨ TempTarget cfg fs src.dropLast (decodeLines (byteLines content.toList)).1 p) :
+    (runProject cfg fs inputs).2.file? p = none :=
+  clean_project_removes cfg hm fs inputs hok files dirs hres src hsrc p ⟨content, hc, hp⟩
+
+/-- … and a clean run, whatever its verdict, only removes: no directory changes, and every path holds
+afterwards the bytes it held before, or nothing -/
+theorem clean_run_only_removes (cfg : Cfg) (hm : cfg.mode = .clean) (fs : FS) (inputs : List (List Char)) :
+    (runProject cfg fs inputs).2.dirs = fs.dirs ∧
+    ∀ q, (runProject cfg fs inputs).2.file? q = none ∨ (runProject cfg fs inputs).2.file? q = fs.file? q :=
+  clean_project_only_removes cfg hm fs inputs
+
+/-- a clean pass never reports dependencies to the coordinator (the mechanism of F5, at the level of `preprocess`) -/
+theorem clean_pass_reports_no_dependencies (cfg : Cfg) (hm : cfg.mode = .clean) (fs : FS) (src : Path) (first : Bool)
+    (deps : List (List Char)) : (runPass cfg fs src first).1 ≠ .hasDeps deps :=
+  runPass_clean_no_deps cfg hm fs src first deps
 
 end C07
